@@ -46,6 +46,7 @@ type Case struct {
 	Seekable bool   `json:",omitempty"`
 	Empty00  bool   `json:",omitempty"`
 	ChunkMin int    `json:",omitempty"`
+	Moved    bool   `json:",omitempty"` // the first accepted chunk moves the session to another directory (absolute path); from there every Location is a relative reference
 }
 
 type onlyReader struct{ r io.Reader }
@@ -205,10 +206,32 @@ func runReg(c Case, res *lib.Result) (ret string) {
 		return nil
 	}
 	inner := mr.Handle
+	movedActive := false
 	rt.Handler = func(req *http.Request, body []byte, n int) *http.Response {
+		const up, mv = "/v2/repo/blobs/uploads/", "/v2/repo/blobs/uploads/moved/"
+		viaMoved := false
+		if c.Moved && strings.HasPrefix(req.URL.Path, up+"u") && movedActive {
+			// the session lives in the other directory now
+			return memrt.Resp(404, nil, []byte(`{"errors":[{"code":"BLOB_UPLOAD_UNKNOWN"}]}`))
+		}
+		if c.Moved && strings.HasPrefix(req.URL.Path, mv) {
+			r2 := req.Clone(req.Context())
+			r2.URL.Path = up + strings.TrimPrefix(req.URL.Path, mv)
+			req, viaMoved = r2, true
+		}
 		rs := inner(req, body, n)
 		if rs != nil && rs.StatusCode == -1 {
 			return nil
+		}
+		if rs != nil && c.Moved {
+			if l := rs.Header.Get("Location"); strings.HasPrefix(l, up+"u") {
+				if viaMoved { // a relative reference, to be resolved against the request it answers
+					rs.Header.Set("Location", strings.TrimPrefix(l, up))
+				} else if req.Method == "PATCH" && rs.StatusCode == 202 {
+					rs.Header.Set("Location", mv+strings.TrimPrefix(l, up))
+					movedActive = true
+				}
+			}
 		}
 		return rs
 	}
@@ -459,6 +482,7 @@ func genCase(r *lib.Rand) Case {
 		c.Kind = "ocidir"
 		c.Declared = lib.Pick(r, decls)
 	}
+	c.Moved = (c.Kind == "chunked" || c.Kind == "fallback") && len(c.Stream)%4 == 1
 	return c
 }
 
